@@ -67,6 +67,9 @@ def check(run, driver):
                         # a nearly singular sample correlation (6 columns, a dozen rows) amplifies rounding by its condition number:
                         # "unchanged up to rounding" cannot be judged at 1e-9 there
                         run.skip("gaussian: ill-conditioned sample correlation (cond > 1e4)"); continue
+                    if info == "geometric_knn" and datakind == "continuous":
+                        # samples anywhere relative to the origin: exact power-of-two offsets of 2^6 .. 2^20 spacings per column
+                        base = base + 2.0 ** rng.integers(6, 21, size=base.shape[1]) * rng.choice([-1.0, 1.0], size=base.shape[1])
                     X, Y, Z = base[:, :kx], base[:, kx:kx + ky], (base[:, kx + ky:] if cond else None)
                     # arguments of different dtypes (single next to double precision; integer counts next to continuous measurements):
                     # the sample is the same whichever argument position a block is passed in
@@ -129,6 +132,44 @@ def check(run, driver):
                                 vz = f(X, Y, Z[:, list(cp)])
                                 if not rel_close(v, vz):
                                     run.prop_fail("estimate depends on the order of the conditioning columns", case, sig("z_col_perm"), {"base": v, "reordered": vz, "column_order": cp}); break
+    # ---- dedicated stream: geometric estimator on samples at every distance from the origin (offset 2^8 .. 2^17 spacings, one exponent per
+    #      case), neighbourhoods thinner than the space (k < d of the stacked blocks): X <-> Y, column order of Z, row order
+    for it in range(30 if thorough else 10):
+        N = int(rng.integers(12, 20)); kx, ky, kz = 1, int(rng.integers(1, 3)), 2; kk = int(rng.integers(1, 3))
+        W = rng.standard_normal((N, kx + ky + kz)) @ (rng.standard_normal((kx + ky + kz, kx + ky + kz)) * 0.4 + np.eye(kx + ky + kz))
+        W = W + 2.0 ** (8 + it % 10) * rng.choice([-1.0, 1.0], size=W.shape[1]) * rng.uniform(1.0, 1.9, size=W.shape[1]).round(3)
+        X, Y, Z = W[:, :kx], W[:, kx:kx + ky], W[:, kx + ky:]
+        f = lambda a, b, c: float(C.geometric_knn_conditional_mutual_information(a, b, c, metric="euclidean", k=kk))
+        v = f(X, Y, Z)
+        case = {"estimator": "geometric_knn", "path": "Z given", "data": f"continuous, offset 2^{8 + it % 10} spacings", "N": N, "kx": kx, "ky": ky, "kz": kz, "k": kk, "X": X, "Y": Y, "Z": Z}
+        run.case("geometric-offset", [N, ky, kk, it % 10, float(W[0, 0])], math.isfinite(v), sample={k_: case[k_] for k_ in ("estimator", "data", "N", "kx", "ky", "kz", "k")} | {"value": v})
+        pm = rng.permutation(N)
+        for tr, w_ in (("swap_xy", f(Y, X, Z)), ("z_col_perm", f(X, Y, Z[:, ::-1])), ("row_perm", f(X[pm], Y[pm], Z[pm]))):
+            if not rel_close(v, w_):
+                run.prop_fail({"swap_xy": "estimate changes when X and Y are exchanged", "z_col_perm": "estimate depends on the order of the conditioning columns",
+                               "row_perm": "estimate changes when the rows of X, Y and Z are jointly reordered"}[tr], case, {"estimator": "geometric_knn", "path": "Z given", "transformation": tr}, {"base": v, "transformed": w_})
+                break
+    # ---- direct entry points with their own argument conventions: the entropy functions (sample + caller-supplied distance matrix,
+    #      rate vectors): equal arguments equal results, arguments untouched
+    from scipy.spatial.distance import cdist as _cdist
+    E = importlib.import_module("causationentropy.core.information.entropy")
+    for it in range(24 if thorough else 8):
+        N = int(rng.integers(10, 26)); d = int(rng.integers(1, 4)); kk = int(rng.integers(1, 4))
+        A = rng.standard_normal((N, d)); Dm = _cdist(A, A)
+        A0, D0 = A.copy(), Dm.copy()
+        h1 = float(E.geometric_knn_entropy(A, Dm, kk)); h2 = float(E.geometric_knn_entropy(A, Dm, kk))
+        run.case("entropy-direct", ["geometric_knn_entropy", N, d, kk, float(A[0, 0])], True)
+        if not (np.array_equal(A, A0) and np.array_equal(Dm, D0)):
+            run.prop_fail("argument array modified", {"function": "geometric_knn_entropy", "N": N, "d": d, "k": kk, "X": A0}, {"estimator": "geometric_knn", "path": "entropy", "transformation": "purity"},
+                          {"sample_changed": not np.array_equal(A, A0), "distance_matrix_changed": not np.array_equal(Dm, D0)})
+        elif h1 != h2:
+            run.prop_fail("equal arguments give different results", {"function": "geometric_knn_entropy", "N": N, "d": d, "k": kk, "X": A0}, {"estimator": "geometric_knn", "path": "entropy", "transformation": "repeat"}, [h1, h2])
+        B = rng.uniform(0, 2, size=(N, d)); B0 = B.copy()
+        e1 = float(E.kde_entropy(B, bandwidth="scott")); e2 = float(E.kde_entropy(B, bandwidth="scott"))
+        lam = rng.uniform(0, 6, size=int(rng.integers(1, 5))); lam0 = lam.copy()
+        p1 = np.asarray(E.poisson_entropy(lam), dtype=float).tolist(); p2 = np.asarray(E.poisson_entropy(lam), dtype=float).tolist()
+        if not (np.array_equal(B, B0) and np.array_equal(lam, lam0)) or e1 != e2 or p1 != p2:
+            run.prop_fail("an entropy function modifies its argument or is not repeatable", {"X": B0, "rates": lam0}, {"estimator": "kde/poisson", "path": "entropy", "transformation": "purity"}, [e1, e2, p1, p2])
     # ---- dedicated stream: Gaussian estimator with two strongly correlated conditioning columns (correlation 0.999 .. 0.9996: condition
     #      number of the sample correlation matrix a few thousand, far from singular) -- every column order of Z, X <-> Y
     for it in range(30 if thorough else 10):
